@@ -170,6 +170,29 @@ func checkC15(c C15Case, r *Rec) *Violation {
 			}
 		}
 	}
+	if bare && !c.NoEval {
+		// a program that is a single atom exists in infix notation only: it still has a value
+		ref := &m.Env{Vars: u.Bound(), Fail: u.Fail(), Custom: customModel()}
+		rv, rerr := ref.Eval(c.Tree)
+		for _, mask := range []int{0, 15} {
+			logB := &Log{}
+			ccB, _ := NewConfig(u, logB, Build{Mask: mask, Infix: true})
+			eB, coB := SafeCompile(ccB, c.Infix)
+			if coB.Panic != nil || coB.Err != nil {
+				return Violf("C15: a single atom does not compile in infix notation (config %s): %v\n%s", maskName(mask), coB, where())
+			}
+			fB := NewFetcher(u, ccB, logB)
+			oB := Safe(func() (eval.Value, error) { return eB.Eval(fB.Ctx()) })
+			if !Agrees(oB, rv, rerr) {
+				return Violf("C15: the infix program %q (config %s) evaluates to %v, the atom denotes %s\nbinding=%v", c.Infix, maskName(mask), oB, refString(rv, rerr), describeU(u))
+			}
+			fT := NewFetcher(u, ccB, logB)
+			oT := Safe(func() (eval.Value, error) { return eB.TryEval(fT.Ctx()) })
+			if !Agrees(oT, rv, rerr) {
+				return Violf("C15: TryEval of the infix program %q (config %s) gives %v, the atom denotes %s", c.Infix, maskName(mask), oT, refString(rv, rerr))
+			}
+		}
+	}
 	if bare {
 		r.Class("bare-atom")
 	}
